@@ -728,28 +728,13 @@ def f_tuple_key(case, obs, fail):
     nodes = fail.get("nodes") or []
     if fail.get("clause") == "content":
         nodes = obs.get("nonprim") or []
-    allowed = {"tuple"} | ({"OrderedDict"} if B.has_odict(case["case"]["x"]) else set())
-    return (fail.get("clause") in ("primitives-only", "content") and any(n["py"] == "tuple" for n in nodes)
-            and all(n["py"] in allowed for n in nodes)
+    return (fail.get("clause") in ("primitives-only", "content") and bool(nodes) and all(n["py"] == "tuple" for n in nodes)
             and B._has_tuple_key(case["case"]["ty"]) and B._nonempty_tuple_key_dict(case["case"]["ty"], case["case"]["x"]))
-
-
-def f_odict(case, obs, fail):
-    """The instance holds a collections.OrderedDict in a Dict position and the only non-primitive nodes of the output are
-    OrderedDicts (encode_dict builds `type(obj)()`), which yaml.safe_dump refuses (json.dumps takes them)."""
-    nodes = fail.get("nodes") or []
-    tup = B._has_tuple_key(case["case"]["ty"]) and B._nonempty_tuple_key_dict(case["case"]["ty"], case["case"]["x"])
-    allowed = {"OrderedDict"} | ({"tuple"} if tup else set())
-    return (case["op"] == "ser.todict" and fail.get("clause") in ("primitives-only", "writers-accept")
-            and B.has_odict(case["case"]["x"]) and any(n["py"] == "OrderedDict" for n in nodes)
-            and all(n["py"] in allowed for n in nodes)
-            and (fail.get("clause") == "primitives-only" or (obs.get("json_ok") and not obs.get("yaml_ok"))))
 
 
 FINDINGS = {
     "C13-set-iteration-order": f_set_order,
     "C13-tuple-key-dict-emits-tuples": f_tuple_key,
-    "C13-ordereddict-survives": f_odict,
 }
 
 MANIFEST = {
@@ -761,7 +746,7 @@ MANIFEST = {
              "instance-valued fields and a raw None) and ONLY that entry: the entries of the other fields are the same under any two "
              "hook environments (c13_hook_only_its_field, c13_decoding_env_independent); encode of an instance is to_dict of it "
              "(c13_encode_is_to_dict). Named gaps with witnesses and open findings: set iteration order (D15), tuple-keyed dicts emit "
-             "tuples, an OrderedDict survives. SAMPLED only (real code + oracle, no theorem): equal instances serialize to equal output "
+             "tuples (an OrderedDict is written as a plain dict since 36b622d: inside c13_prim_hooks' grammar). SAMPLED only (real code + oracle, no theorem): equal instances serialize to equal output "
              "(same instance twice, deep copy, reversed build), freshness / no-aliasing and purity of from_dict are checked on the real code by id()-based "
              "alias detection and mutation probes on every mutable node (not modelled in Lean)."),
     "note": ("Trusted: Lean kernel + propext/Classical.choice/Quot.sound; json, PyYAML, copy; the harness. Modelled not verified: "
